@@ -1,0 +1,22 @@
+//! Verification hooks (only compiled with `--cfg jubako_verif`).
+//!
+//! A test harness registers a tracer; the library calls it at the linearization points of
+//! the background decoder and of the cluster cache, while the lock protecting the state is
+//! still held. The tracer may also act as a schedule point (yield / sleep).
+use std::sync::RwLock;
+
+/// (event name, object id, value a, value b)
+pub type Tracer = fn(&'static str, u64, u64, u64);
+
+static TRACER: RwLock<Option<Tracer>> = RwLock::new(None);
+
+pub fn set_tracer(tracer: Option<Tracer>) {
+    *TRACER.write().unwrap() = tracer;
+}
+
+#[inline]
+pub(crate) fn emit(event: &'static str, id: u64, a: u64, b: u64) {
+    if let Some(tracer) = *TRACER.read().unwrap() {
+        tracer(event, id, a, b);
+    }
+}
